@@ -37,7 +37,7 @@ Definition reference_column_names : list (Z * string) :=
 (* a metadata value of a chart or mapset object *)
 Inductive mval :=
 | MText (t : list Z) | MBytes (t : list Z) | MInt (z : Z) | MFloat (q : Q) | MBool (b : bool)
-| MTexts (l : list (list Z)) | MInts (l : list Z) | MNone | MOther (id : Z).
+| MTexts (l : list (list Z)) | MInts (l : list Z) | MNone | MOther (id : Z) | MNaN.
 
 (* a metadata attribute: (is it an attribute of the mapset object?, field name) *)
 Definition mkey := (bool * Z)%type.
@@ -93,6 +93,19 @@ Fixpoint min_cells (acc : Q) (vs : list cell) : option Q :=
   | CNum q :: vs' => min_cells (if Qle_bool q acc then q else acc) vs'
   | _ => None
   end.
+
+Fixpoint max_cells (acc : Q) (vs : list cell) : option Q :=
+  match vs with
+  | [] => Some acc
+  | CNum q :: vs' => max_cells (if Qle_bool acc q then q else acc) vs'
+  | _ => None
+  end.
+(* <chart>.stack().<col>: the values of that column over all lists of the chart that have it (lists without it
+   contribute NaN rows, which max() skips, as it skips missing cells) *)
+Definition stack_col_vals (c : chart) (col : Z) : list cell :=
+  flat_map (fun nf => match col_vals (snd nf) col with
+                      | Some vs => filter (fun v => match v with CNaN => false | _ => true end) vs
+                      | None => [] end) (c_lists c).
 
 (* the context of one loop iteration: arguments, the mapset's attributes, the source chart and its position, and
    the ORACLE: the chart the implementation produced, consulted only for what is not modelled (EOpaque metadata
@@ -160,6 +173,14 @@ Fixpoint eval (x : ctx) (e : mexpr) : option mval :=
                                   | _ => None end
                       | None => None end
   | EDefault _ _ v => eval x v
+  | EStackMaxPlus col k => match stack_col_vals (x_chart x) col with
+                           | [] => Some MNaN                                 (* max of nothing is NaN *)
+                           | CNum q :: vs => option_map (fun m => MFloat (Qred (m + inject_Z k))) (max_cells q vs)
+                           | _ => None end
+  | ENotNaN e' => match eval x e' with
+                  | Some MNaN => Some (MBool false)
+                  | Some _ => Some (MBool true)
+                  | None => None end
   | EOpaque _ => None
   end.
 
@@ -406,7 +427,7 @@ Fixpoint expr_srcs_okb (d : conv_desc) (e : mexpr) : bool :=
   | EListCopy e' | EToInt e' | EDecodeSjis e' | EEncodeSjis e' | EStr e' => expr_srcs_okb d e'
   | ECat a b => expr_srcs_okb d a && expr_srcs_okb d b
   | ELevelName => memZ F_LEVEL (cd_src_set_fields d)
-  | ELookupInt _ _ e' | ELookupText _ _ e' => expr_srcs_okb d e'
+  | ELookupInt _ _ e' | ELookupText _ _ e' | ENotNaN e' => expr_srcs_okb d e'
   | EOr a b => expr_srcs_okb d a && expr_srcs_okb d b
   | EIf c a b => expr_srcs_okb d c && expr_srcs_okb d a && expr_srcs_okb d b
   | ELen l | EFirstOffset l => memZ l (map fst (cd_src_lists d))
@@ -418,8 +439,8 @@ Fixpoint uses_chart (e : mexpr) : bool :=
   | EAttr b _ => negb b
   | EListCopy e' | EToInt e' | EDecodeSjis e' | EEncodeSjis e' | EStr e' => uses_chart e'
   | ECat a b => uses_chart a || uses_chart b
-  | ELevelName | ELen _ | EFirstOffset _ => true
-  | ELookupInt _ _ e' | ELookupText _ _ e' => uses_chart e'
+  | ELevelName | ELen _ | EFirstOffset _ | EStackMaxPlus _ _ => true
+  | ELookupInt _ _ e' | ELookupText _ _ e' | ENotNaN e' => uses_chart e'
   | EOr a b => uses_chart a || uses_chart b
   | EIf c a b => uses_chart c || uses_chart a || uses_chart b
   | _ => false
@@ -589,6 +610,6 @@ Definition mval_eqb (a b : mval) : bool :=
                                          | [], [] => true
                                          | s :: x', t :: y' => zlist_eqb s t && go x' y'
                                          | _, _ => false end) x y
-  | MNone, MNone => true
+  | MNone, MNone | MNaN, MNaN => true
   | _, _ => false
   end.
